@@ -151,27 +151,26 @@ def r052(report, g, lm):
 def token_path(lm, methods, lexer, lexdata='/ x'):
     """Evaluate Lexer._token from its source in the given lexer state with
     `lexdata` as the remaining input and report which way the next token
-    is read: 'div' (handed to the INITIAL lexer through
-    _get_update_token) or 're' (read in the regex state through
-    _read_regex).  The two readers are stand-ins that only record the
-    call; everything else of _token (peek loop, comment bypass, decision,
-    helpers it calls) is the source."""
+    is read: 'div' (read by the underlying lexer in its INITIAL state) or
+    're' (read after lexer.begin('regex')).  Only the raw reader
+    get_lexer_token and the ply lexer object are stand-ins; everything
+    else (_token with its peek loop, comment bypass and decision,
+    _get_update_token, _set_tokens, _read_regex, helpers) is the
+    source."""
     calls = []
+    state = ['INITIAL']
 
-    def get_update():
-        calls.append('div')
+    def begin(name):
+        state[0] = name
+
+    def get_lexer_token():
+        calls.append('re' if state[0] == 'regex' else 'div')
+        if state[0] == 'regex':
+            return tok('REGEX', '/x/')
         return tok('DIV', '/')
-
-    def read_regex():
-        calls.append('re')
-        return tok('REGEX', '/x/')
-
-    def set_tokens(new):
-        lexer.cur_token = new
-    lexer.lexer = Obj('PlyLexer', lexdata=lexdata, lexpos=0)
-    lexer._get_update_token = ('pyfunc', get_update)
-    lexer._read_regex = ('pyfunc', read_regex)
-    lexer._set_tokens = ('pyfunc', set_tokens)
+    lexer.lexer = Obj('PlyLexer', lexdata=lexdata, lexpos=0,
+                      begin=('pyfunc', begin))
+    lexer.get_lexer_token = ('pyfunc', get_lexer_token)
     ev = Evaluator(lm.module, 'Lexer', methods, {
         'AutoLexToken': lambda: Obj('AutoLexToken')})
     token_fn = methods.get('_token')
@@ -201,7 +200,7 @@ MARKER_RUNS = [
 ]
 
 
-def r053(report, g, lm, only_div, only_re, headers):
+def r053(report, g, lm, only_div, only_re, headers, tier='quick'):
     rule = report.rule('R05.3', 'decision is layout transparent and follows '
                        'the header stack (contexts x marker runs)',
                        floor=300)
@@ -230,10 +229,24 @@ def r053(report, g, lm, only_div, only_re, headers):
                           'RPAREN'), 'div', '%s (a) f()' % k.lower()))
         contexts.append(((k, 'LPAREN', 'ID', 'RPAREN', 'LPAREN', 'ID',
                           'RPAREN'), 'div', '%s (a) (b)' % k.lower()))
+    runs = list(MARKER_RUNS)
+    if tier == 'thorough':
+        import itertools as _it
+        kinds_ = ('LINE_TERMINATOR', 'BLOCK_COMMENT', 'LINE_COMMENT')
+        runs = [()]
+        for k in range(1, 4):
+            for run in _it.product(kinds_, repeat=k):
+                # a line comment is always followed by a line terminator
+                if any(x == 'LINE_COMMENT' and (i + 1 >= len(run) or
+                                                run[i + 1] !=
+                                                'LINE_TERMINATOR')
+                       for i, x in enumerate(run)):
+                    continue
+                runs.append(run)
     failing = {}
     n = 0
     for ctx, exp, label in contexts:
-        for run in MARKER_RUNS:
+        for run in runs:
             ev = Evaluator(lm.module, 'Lexer', methods, {
                 'AutoLexToken': lambda: Obj('AutoLexToken')})
             lexer = mk_lexer_obj()
@@ -423,7 +436,7 @@ def r056(report, lm):
     return rule
 
 
-def rules(report, index):
+def rules(report, index, tier='quick'):
     """the division / regex rules (also part of C03: the reading of `/`
     decides which texts are accepted)"""
     M = models(index)
@@ -434,7 +447,7 @@ def rules(report, index):
                   if calls and cur == 'DIV'}
     only_div, only_re, both = r051(report, g, lm, pm, relex_prev)
     headers = r052(report, g, lm)
-    r053(report, g, lm, only_div, only_re, headers)
+    r053(report, g, lm, only_div, only_re, headers, tier)
     r054(report, g, lm, pm, both, slash_tokens, prevs, table)
     r055(report, lm)
     r056(report, lm)
@@ -447,7 +460,7 @@ def run(report, index, tier):
         'and the decision expression of Lexer._token is evaluated '
         'abstractly over token contexts x marker runs using the transition '
         'functions extracted from the lexer source.')
-    rules(report, index)
+    rules(report, index, tier)
     report.not_decided.append(
         'paren-stack bookkeeping for arbitrarily deep nesting beyond the '
         'explored contexts (runtime stack discipline)')
